@@ -149,8 +149,7 @@ static size_t ws_drain(struct ws_sess *s)
 static int ws_server_input_pending(struct ws_sess *s)
 {
 	int n = 0;
-	if (fcntl(s->sv[0], F_GETFD) < 0) return 0;     /* server closed its end */
-	if (ioctl(s->sv[0], FIONREAD, &n) < 0) return 0;
+	if (ioctl(s->sv[0], FIONREAD, &n) < 0) return 0;   /* EBADF: the server closed its end (no fd is opened meanwhile) */
 	return n > 0;
 }
 
